@@ -43,13 +43,13 @@ constexpr int kTagCtor = 2, kTagForward = 3, kTagGuard = 4;
 
 enum Probe : int {
   pNodeCreated = 0, pNodeRetired, pWorkerAcrossForwards, pIdReuse, pGuardSeenByForward, pQuiescentForward, pListChecked, pGuardStraddledForward,
-  pRestart, pPinnedAcrossBoundary, pBurst, pUnobservedForward, pProbes
+  pRestart, pPinnedAcrossBoundary, pBurst, pUnobservedForward, pGuardReleasedByAssign, pProbes
 };
 const char *const kProbeNames[] = {"forward_created_list_node", "forward_retired_list_node", "guard_alive_across_two_or_more_forwards",
                                    "slot_reused_by_new_thread", "live_guard_checked_after_forward", "quiescent_forward_checked",
                                    "protected_list_checked", "guard_creation_overlapped_forward", "worker_exit_and_restart",
                                    "guard_pinned_across_node_boundary", "coordinator_forward_burst", "forward_followed_by_forward_without_observation",
-                                   nullptr};
+                                   "guard_released_by_assigning_empty_guard", nullptr};
 
 std::string g_prop;
 bool tagged(const char *tags) { return g_prop.empty() || strstr(tags, g_prop.c_str()) != nullptr; }
@@ -223,6 +223,7 @@ void op_guard(const Op &op)
 
 void op_guard_move(const Op &op)
 {
+  bool released_early = false;
   S->guard_activity++;
   S->creates_in_flight++;
   dsim::set_alloc_tag(kTagGuard);
@@ -245,11 +246,31 @@ void op_guard_move(const Op &op)
              k.GetProtectedEpoch());
     }
     ghost_unregister(gi);
-    dsim::op_begin("destroy guard", 0);
+    if (op.b >= 1) {
+      // the pin ends when an empty guard is move-assigned over the engaged one; the guard objects live on and pin nothing (a pin
+      // that survives is found by the quiescent-forward checks, at the latest by the final one)
+      dsim::op_begin("release guard by move-assigning an empty guard", 0);
+      k = EpochGuard{};
+      dsim::op_end();
+      S->destroys_in_flight--;
+      S->guard_activity++;
+      dsim::probe(pGuardReleasedByAssign);
+      if (op.b >= 2) {
+        EpochGuard m{std::move(k)};  // an empty guard moved around: still pins nothing
+        k = std::move(m);
+      }
+      for (int64_t i = 0; i <= op.a; ++i) dsim::yield();
+      dsim::op_begin("destroy empty guards", 0);
+      released_early = true;
+    } else {
+      dsim::op_begin("destroy guard", 0);
+    }
   }
   dsim::op_end();
-  S->destroys_in_flight--;
-  S->guard_activity++;
+  if (!released_early) {
+    S->destroys_in_flight--;
+    S->guard_activity++;
+  }
 }
 
 // the old grant ends when the guard is overwritten: the pin on this manager must be released by the move assignment
@@ -868,6 +889,7 @@ void generate(Program &prog, dsim::Config &cfg, dsim::Rng &pr, dsim::Rng &cr, in
       } else if (x < 85) {
         o.kind = pr.chance(1, 2) ? kGuardMove : kGuardReassign;
         o.a = static_cast<int64_t>(pr.below(3));
+        if (o.kind == kGuardMove) o.b = static_cast<int64_t>(pr.below(3));  // 0: destroyed while engaged; 1, 2: released by `g = EpochGuard{}`
       } else {
         o.kind = kRestart;
         o.a = static_cast<int64_t>(pr.below(3));
@@ -931,7 +953,7 @@ std::string render(const Program &p)
         case kGuard: s += std::string(o.b ? " GetProtectedEpochs" : " CreateEpochGuard") + "(hold " + std::to_string(o.a) + ", rereads " + std::to_string(o.c) + ");"; break;
         case kReadings: s += " readings x" + std::to_string(o.a + 1) + ";"; break;
         case kRestart: s += " exit+restart;"; break;
-        case kGuardMove: s += " guard+moves(hold " + std::to_string(o.a) + ");"; break;
+        case kGuardMove: s += " guard+moves(hold " + std::to_string(o.a) + (o.b ? ", released by g = EpochGuard{}" : "") + ");"; break;
         case kGuardReassign: s += " guard; guard = otherManager.CreateEpochGuard()(hold " + std::to_string(o.a) + ");"; break;
         default: break;
       }
